@@ -884,6 +884,24 @@ theorem connack_tail_inv {w : World} {b : Nat} (h : Inv w b) (c c2 : Prop) [Deci
     · exact h4.pushQuiet .retry rfl
   exact h5
 
+theorem att_newConn {w w' : World} (c : Conn) (hc : pubMsgs c.pkts = []) (h3 : w'.conns = w.conns ++ [c]) :
+    att w' = att w := by
+  rw [att_eq_flatMap, att_eq_flatMap, h3, List.flatMap_append]
+  simp only [List.flatMap_cons, List.flatMap_nil, hc, List.append_nil]
+
+/-- a new connection whose log holds no PUBLISH becomes the current one -/
+theorem Inv.newConn {w : World} {b : Nat} (h : Inv w b) (c : Conn) (hc : pubMsgs c.pkts = []) (w' : World)
+    (h1 : w'.taskQ = w.taskQ) (h4 : w'.retryQ = w.retryQ) (h3 : w'.conns = w.conns ++ [c])
+    (h2 : w'.cli = some w.conns.length) : Inv w' b := by
+  refine ⟨?_, ?_⟩
+  · rw [pend_def, h1, h4, att_eq_flatMap, h3, List.flatMap_append]
+    simp only [List.flatMap_cons, List.flatMap_nil, hc, List.append_nil]
+    rw [← att_eq_flatMap]; exact h.core
+  · intro k hk
+    rw [h2] at hk
+    simp only [Option.some.injEq] at hk
+    rw [h3, ← hk]; simp
+
 /-- the bound after an event: a submitted message raises it -/
 def nextBound (b : Nat) : Ev → Nat
   | .app (.pub m _) => m + 1
@@ -897,7 +915,9 @@ theorem step_inv {w : World} {b : Nat} (e : Ev) (h : Inv w b)
     split
     · exact h
     · split
-      · exact h.of_fields rfl rfl rfl rfl
+      · split
+        · exact h.of_fields rfl rfl rfl rfl
+        · exact h.of_fields rfl rfl rfl rfl
       · exact h.of_fields rfl rfl rfl rfl
   | waitElapsed =>
     simp only [step, nextBound]
@@ -911,7 +931,9 @@ theorem step_inv {w : World} {b : Nat} (e : Ev) (h : Inv w b)
     · split
       · exact h.of_fields rfl rfl rfl rfl
       · exact h.of_fields rfl rfl rfl rfl
-      · exact h.of_fields rfl rfl rfl rfl
+      · split
+        · exact h.of_fields rfl rfl rfl rfl
+        · exact h.of_fields rfl rfl rfl rfl
       · rename_i k _
         apply progress_inv
         exact ((h.of_fields (w' := { w with ctxCancelled := true, connReady := true }) rfl rfl rfl rfl).kill k).of_fields
@@ -941,23 +963,20 @@ theorem step_inv {w : World} {b : Nat} (e : Ev) (h : Inv w b)
     simp only [step, nextBound]
     split
     · exact h
-    · refine ⟨?_, ?_⟩
-      · show Core (pubMsgs (List.flatMap (·.pkts) (w.conns ++ [_]))) (pend w) b
-        rw [List.flatMap_append, pubMsgs_append]
-        have : pubMsgs (List.flatMap (·.pkts) [({ ctr := idStart, handler := w.handler, pkts := [(.connect, .sent .ok)] } : Conn)]) = [] := by
-          simp [pubMsgs]
-        rw [this, List.append_nil]
-        exact h.core
-      · intro k hk
-        simp only [Option.some.injEq] at hk
-        simp [← hk]
+    · split
+      · -- (deaf dialer) the transport arrives after the cancellation: a dead connection that carries only CONNECT
+        apply progress_inv
+        exact h.newConn _ rfl _ rfl rfl rfl rfl
+      · exact h.newConn _ rfl _ rfl rfl rfl rfl
   | dialFail =>
     simp only [step, nextBound]
     split
     · exact h
     · split
       · exact h.of_fields rfl rfl rfl rfl
-      · exact h.of_fields rfl rfl rfl rfl
+      · split
+        · exact h.of_fields rfl rfl rfl rfl
+        · exact h.of_fields rfl rfl rfl rfl
   | connackOk sp inbound =>
     simp only [step, nextBound]
     split
@@ -1967,7 +1986,9 @@ theorem step_inv3 {w : World} {b : Nat} (e : Ev) (h : Inv3 w b)
     split
     · exact hB
     · split
-      · exact hB
+      · split
+        · exact hB
+        · exact hB
       · exact hB
   | waitElapsed =>
     simp only [step]
@@ -1981,7 +2002,9 @@ theorem step_inv3 {w : World} {b : Nat} (e : Ev) (h : Inv3 w b)
     · split
       · exact hB
       · exact hB
-      · exact hB
+      · split
+        · exact hB
+        · exact hB
       · rename_i k _
         refine (progress_inv3 (b := b) ⟨?_, ?_⟩).2
         · exact ((hi.of_fields (w' := { w with ctxCancelled := true, connReady := true }) rfl rfl rfl rfl).kill k).of_fields
@@ -2014,19 +2037,20 @@ theorem step_inv3 {w : World} {b : Nat} (e : Ev) (h : Inv3 w b)
     simp only [step]
     split
     · exact hB
-    · refine hB.quiet rfl rfl rfl (.inl rfl) ?_ rfl rfl hB.2.2.2.2.2.2
-      show pubMsgs (List.flatMap (·.pkts) (w.conns ++ [_])) = att w
-      rw [List.flatMap_append, pubMsgs_append]
-      have : pubMsgs (List.flatMap (·.pkts) [({ ctr := idStart, handler := w.handler, pkts := [(.connect, .sent .ok)] } : Conn)]) = [] := by
-        simp [pubMsgs]
-      rw [this, List.append_nil]; rfl
+    · split
+      · refine (progress_inv3 (b := b) ⟨?_, ?_⟩).2
+        · exact hi.newConn _ rfl _ rfl rfl rfl rfl
+        · exact hB.quiet rfl rfl rfl (.inl rfl) (att_newConn _ rfl rfl) rfl rfl hB.2.2.2.2.2.2
+      · exact hB.quiet rfl rfl rfl (.inl rfl) (att_newConn _ rfl rfl) rfl rfl hB.2.2.2.2.2.2
   | dialFail =>
     simp only [step]
     split
     · exact hB
     · split
       · exact hB
-      · exact hB
+      · split
+        · exact hB
+        · exact hB
   | connackOk sp inbound =>
     simp only [step]
     split
@@ -2280,10 +2304,25 @@ def connackPre (w : World) (sp : Bool) (k : Nat) : World :=
   let w := if w.stopped then w else pushTask w .retry
   { w with initialized := true, phase := if w.stopped then .exited else .up k }
 
+/-- the `.dialOk` case of `step` for a first Connect whose context was cancelled while a dialer that ignores
+    its context was dialling (`Cfg.deafDialer`): the new, already dead connection that carries only CONNECT is
+    installed, the loop has exited; the world before `progress` -/
+def dialDead (w : World) (idStart : Nat) : World :=
+  let k := w.conns.length
+  let c : Conn := { ctr := idStart, handler := w.handler, pkts := [(.connect, .sent .ok)], alive := false }
+  let idleConnected := w.goroutine ∧ w.gConnected ∧ ¬ w.stuck
+  { w with conns := w.conns ++ [c], cli := some k, connReady := true, goroutine := true,
+           gConnected := if idleConnected then false else w.gConnected,
+           phase := .exited }
+
 /-- the world on which `step w e` calls `progress` (`none`: the task goroutine is not given a turn).
     A copy of the corresponding sub-terms of `step`, tied to it by `step_pre`. -/
 def preProgress (w : World) : Ev → Option World
   | .app r => if w.stopped then none else some (pushTask { w with accepted := w.accepted ++ [r] } (.req r))
+  | .dialOk idStart =>
+    if w.phase ≠ .dialGate then none
+    else if w.ctxCancelled ∧ w.connectReturned.isNone then some (dialDead w idStart)
+    else none
   | .cancelCtx =>
     if w.ctxCancelled ∨ w.connectReturned.isSome then none
     else match w.phase with
@@ -3248,7 +3287,9 @@ theorem step_pre (w : World) (e : Ev) :
     simp only [step]
     split
     · exact ⟨rfl, rfl, rfl, id⟩
-    · split <;> exact ⟨rfl, rfl, rfl, id⟩
+    · split
+      · split <;> exact ⟨rfl, rfl, rfl, id⟩
+      · exact ⟨rfl, rfl, rfl, id⟩
   | app r =>
     by_cases hs : w.stopped = true
     · refine .inl ⟨by simp [preProgress, hs], ?_⟩
@@ -3258,23 +3299,38 @@ theorem step_pre (w : World) (e : Ev) :
         ⟨fun r' h => by cases h; rfl, fun h => absurd rfl (h r)⟩, rfl, id⟩
       simp only [step, hs, Bool.false_eq_true, if_false]; exact SameQ.rfl' _
   | dialOk idStart =>
-    refine .inl ⟨rfl, ?_⟩
-    simp only [step]
-    split
-    · exact ⟨rfl, rfl, rfl, id⟩
-    · refine ⟨rfl, rfl, ?_, ?_⟩
-      · show keysOf (List.flatMap (·.pkts) (w.conns ++ [_])) = wireKeys w
-        rw [List.flatMap_append, keysOf_append]
-        simp [keysOf, wireKeys, allPkts, pktKey]
+    -- a new connection that carries only CONNECT becomes the current one
+    have hnew : ∀ (c : Conn) (w' : World), c.pkts = [(.connect, .sent .ok)] → w'.conns = w.conns ++ [c] →
+        w'.cli = some w.conns.length → SameW w w' := by
+      intro c w' hc h3 h2
+      refine ⟨?_, ?_⟩
+      · rw [wireKeys_eq_flatMap, wireKeys_eq_flatMap, h3, List.flatMap_append]
+        simp [hc, keysOf, pktKey]
       · intro _ k hk
+        rw [h2] at hk
         simp only [Option.some.injEq] at hk
-        simp [← hk]
+        rw [h3, ← hk]; simp
+    by_cases hph : w.phase = .dialGate
+    · by_cases hc : w.ctxCancelled = true ∧ w.connectReturned.isNone = true
+      · refine .inr ⟨dialDead w idStart, [],
+          by simp only [preProgress, hph, hc, ne_eq, not_true_eq_false, and_self, if_true, if_false], ?_, rfl,
+          by simp [dialDead], nonapp (fun r h => by cases h) (by simp), hnew _ _ rfl rfl rfl⟩
+        simp only [step, hph, ne_eq, not_true_eq_false, if_false]
+        rw [if_pos hc]
+        exact SameQ.rfl' _
+      · refine .inl ⟨by simp only [preProgress, hph, hc, ne_eq, not_true_eq_false, if_false], ?_⟩
+        simp only [step, hph, hc, ne_eq, not_true_eq_false, if_false]
+        exact ⟨rfl, rfl, hnew _ _ rfl rfl rfl⟩
+    · refine .inl ⟨by simp only [preProgress, hph, ne_eq, not_false_eq_true, if_true], ?_⟩
+      simp only [step, hph, ne_eq, not_false_eq_true, if_true]; exact ⟨rfl, rfl, rfl, id⟩
   | dialFail =>
     refine .inl ⟨rfl, ?_⟩
     simp only [step]
     split
     · exact ⟨rfl, rfl, rfl, id⟩
-    · split <;> exact ⟨rfl, rfl, rfl, id⟩
+    · split
+      · exact ⟨rfl, rfl, rfl, id⟩
+      · split <;> exact ⟨rfl, rfl, rfl, id⟩
   | waitElapsed =>
     refine .inl ⟨rfl, ?_⟩
     simp only [step]
@@ -3310,7 +3366,10 @@ theorem step_pre (w : World) (e : Ev) :
         simp only [step, hc, hph, if_false]; exact SameQ.rfl' _
       | _ =>
         refine .inl ⟨by simp only [preProgress, hc, hph, if_false], ?_⟩
-        simp only [step, hc, hph, if_false]; exact ⟨rfl, rfl, rfl, id⟩
+        simp only [step, hc, hph, if_false]
+        first
+          | exact ⟨rfl, rfl, rfl, id⟩
+          | (split <;> exact ⟨rfl, rfl, rfl, id⟩)
   | connackOk sp inbound =>
     cases hph : w.phase with
     | connackGate k =>
